@@ -17,7 +17,7 @@ pub static DEF: PropDef = PropDef {
     level: "exploration",
     engine: "query",
     rule: "one run = a real CachedObjectStore + TieredCache (L1 from 300 bytes, i.e. evict on every insert, to 8 MB; no disk tier in the seeded phase, foyer disk tier of 64 KB..1 MB on /dev/shm in the thorough-only 'l2' phase) over the simulated store, a growing set of 80..200 write-once objects of 1 byte..6 KB written in 3..5 waves, and 2..4 concurrent reader tasks issuing 30..80 reads each (whole GET, get_range, GET with range option, If-Match / If-None-Match with right and wrong ETags, never-written keys incl. keys that share a file name or prefix with written ones); the inner store's requests are seeded scheduling points (concurrent misses on the same and on different keys), half of the runs inject request failures on the miss path; whenever a read returns bytes they must equal the backing store's object (the requested range of it), a missing key must fail; distinct = distinct grant sequence; non-trivial = completed AND an L1 eviction happened (misses on re-read keys)",
-    quick_runs: 1500,
+    quick_runs: 5000,
     thorough_runs: 30_000,
     run_cap_ms: 60_000,
     scen,
